@@ -262,3 +262,13 @@ def run(ck):
           ("splits at a ':' it looks for itself, with a bracket test" if ok_ else
            "the Host value is split at a ':' found by %s without looking at brackets: the colons of an IPv6 literal like [::1] are taken for the port separator"
            % colon_split[0]["callee"].rsplit("::", 1)[-1]))
+
+    # ---------------- facts shared with C02 / C09 ----------------
+    ck.borrow("C02", ["C02-R3"], "C16-R6",
+              "the value of a received header starts after the colon and any number of blanks (none, one, several are all legal) and ends "
+              "before CRLF: HeadersStep skips ':' and then the blanks it finds, not a fixed count",
+              key_pred=lambda k: k == "reader:HeadersStep-splits-on-colon-space", min_instances=1)
+    ck.borrow("C09", ["C09-R5"], "C16-R7",
+              "header and date writers / parsers keep no state between calls (no mutable static or thread_local local): what is written for a "
+              "value does not depend on which values the thread wrote before",
+              key_pred=lambda k: k == "serving-path/static-locals", min_instances=1)
